@@ -138,6 +138,56 @@ def expand_inner(toks, repo, names, files, counts, notes):
     return toks
 
 
+def n14_mut_self(toks, counts):
+    """N14: Verus has no `mut self` receiver. `fn f(mut self, ..) -> T { BODY }` becomes
+    `fn f(self, ..) -> T { let mut self__ = self; BODY' }` where BODY' is BODY with every `self` renamed to `self__`.
+    Semantics-preserving: `mut self` IS a by-value binding that may be mutated; the rename moves it into a local."""
+    n = len(toks)
+    # find `( mut self` of a fn item at nesting depth 0 of the region
+    i = 0
+    while i + 2 < n:
+        if is_p(toks[i], "(") and is_id(toks[i + 1], "mut") and is_id(toks[i + 2], "self") and i >= 1:
+            # the token before `(` (skipping generics) must belong to a fn header: look back for `fn`
+            k = i - 1
+            depth = 0
+            ok = False
+            while k >= 0:
+                t = toks[k]
+                if is_p(t, ">"):
+                    depth += 1
+                elif is_p(t, "<"):
+                    depth -= 1
+                elif depth == 0 and is_id(t, "fn"):
+                    ok = True
+                    break
+                elif depth == 0 and t.kind == "punct" and t.text in ("{", "}", ";", "("):
+                    break
+                k -= 1
+            if ok:
+                close = match_close(toks, i)
+                # body: first `{` after the parameter list at depth 0 (skipping the where clause)
+                j = close + 1
+                d = 0
+                while j < n and not (d == 0 and is_p(toks[j], "{")):
+                    if toks[j].kind == "punct" and toks[j].text in ("(", "[", "<"):
+                        d += 1
+                    elif toks[j].kind == "punct" and toks[j].text in (")", "]", ">") and not (j > 0 and is_p(toks[j - 1], "-")):
+                        d -= 1
+                    j += 1
+                if j < n:
+                    bclose = match_close(toks, j)
+                    out = list(toks[:i + 1]) + [toks[i + 2].clone(trivia=toks[i + 1].trivia)] + list(toks[i + 3:j + 1])
+                    out += frag("let mut self__ = self;", " ")
+                    for t in toks[j + 1:bclose]:
+                        out.append(t.clone(text="self__") if is_id(t, "self") else t)
+                    out += list(toks[bclose:])
+                    counts["N14"] = counts.get("N14", 0) + 1
+                    return n14_mut_self(out, counts) if False else out
+        i += 1
+    return toks
+
+
+
 def n6_debug_assert(toks, counts):
     out = []
     i, n = 0, len(toks)
@@ -699,6 +749,7 @@ def apply_all(toks, repo, opts, notes):
     if opts.get("drop"):
         toks = drop_tokens(toks, set(opts["drop"]), counts)
     toks = n6_debug_assert(toks, counts)
+    toks = n14_mut_self(toks, counts)
     if opts.get("n13"):
         toks = n13_match_bytestr(toks, counts)
     toks = n8_bytestr(toks, counts)
